@@ -1,5 +1,5 @@
 From PdfV Require Import Base.Prelude Gen.Generated Lex.Lexer Lex.LexProofs Syn.Prim Syn.Parser Syn.Spells Syn.ParserProofs Syn.RenderProofs Syn.StreamProofs
-  ObjStm.Model ObjStm.Proofs Properties.C11.
+  Codec.Model Codec.Dispatch ObjStm.Model ObjStm.Proofs ObjStm.Filtered Properties.C11.
 Check C11_member : forall R head texts i v its body ws_tail n,
   header_offsets n (mkLx 0 (head ++ concat texts)) = Ok (offs_of texts 0) ->
   nth_error texts i = Some (body ++ ws_tail) ->
@@ -28,3 +28,14 @@ Check C11_stream_length : forall d1 body1 d2 body2 a b id gen,
       parse_indirect_object R allow F_ANY t = Ok (id, gen, PStream d2 id gen st2 (lenN data), t5) /\
       firstn (length data) (skipn (N.to_nat (st1 - lpos s3)) (lrest s3)) = data /\
       firstn (length data) (skipn (N.to_nat (st2 - lpos t3)) (lrest t3)) = data.
+Check C11_member_any_filter : forall inflate_zlib inflate_raw deflate_zlib lzw_dec lzw_enc f R head texts i v its body ws_tail n e,
+    (forall y, inflate_zlib (deflate_zlib y) = Ok y) ->
+    (forall y c, lzw_enc y = Ok c -> lzw_dec false c = Ok y) ->
+    standard_filter f -> wf_bytes (head ++ concat texts) ->
+    encode deflate_zlib lzw_enc f (head ++ concat texts) = Ok e ->
+    header_offsets n (mkLx 0 (head ++ concat texts)) = Ok (offs_of texts 0) ->
+    nth_error texts i = Some (body ++ ws_tail) ->
+    spells v its -> vdepth v <= MAX_DEPTH -> renders its (body ++ ws_tail) ws_tail ->
+    Forall (fun b => is_ws b = true) ws_tail ->
+    lenN (head ++ concat texts) < USIZE ->
+    resolve_member_filtered inflate_zlib inflate_raw lzw_dec [f] R F_ANY (lenN head) (N.of_nat n) e (N.of_nat i) = Ok v.
